@@ -315,7 +315,12 @@ func (c *Ctx) gChooseLimits(s *gSnap) gLimits {
 func (l gLimits) engineConfig(c *Ctx) bs.BloomSearchEngineConfig {
 	cfg := bs.DefaultBloomSearchEngineConfig()
 	cfg.PartitionFunc = gPartitionFunc
-	cfg.MinMaxIndexes = []string{"n", "m"}
+	// the merging engine's own minmax configuration is irrelevant to merging (key sets belong to the
+	// source blocks); it changes between restarts
+	cfg.MinMaxIndexes = [][]string{{"n", "m"}, {"n", "m"}, {"n"}, {}}[c.intn(4)]
+	if gScenarioTokenizer != nil {
+		cfg.Tokenizer = gScenarioTokenizer
+	}
 	cfg.MaxRowGroupRows = l.rows
 	cfg.MaxRowGroupBytes = l.bytes
 	cfg.MaxFileSize = l.fileSize
@@ -326,6 +331,11 @@ func (l gLimits) engineConfig(c *Ctx) bs.BloomSearchEngineConfig {
 }
 
 func gMergeScenario(c *Ctx, sh11, sh12 *shard, scen int) {
+	gScenarioTokenizer = nil
+	if c.chance(0.5) {
+		gScenarioTokenizer = fieldsKeepCase
+	}
+	c.dist("g_tokenizer", map[bool]string{true: "strings.Fields (substring views)", false: "default"}[gScenarioTokenizer != nil])
 	meta := bs.NewMemoryMetaStore()
 	store := newMemDataStore()
 	pt := newGPtrTable()
